@@ -173,6 +173,12 @@ def one_request(w, truth, last, b, e, awaiting, idx, first_class, case, concurre
     skey = session_of(w.c).key
     rows0 = {seq: m for (k_, d, seq, m) in journal_rows(w.j) if d == 1 and k_ == skey}
     foreign0 = [r for r in journal_rows(w.j) if r[0] != skey]
+    # zero-padded spellings ("00", "0003") are legal FIX ints: same meaning as the number
+    spell_b, spell_e = b, e
+    if isinstance(b, str) and b.isdigit():
+        b = int(b)
+    if isinstance(e, str) and e.isdigit():
+        e = int(e)
     numeric = isinstance(b, int) and isinstance(e, int)
     valid = numeric and 1 <= b <= last and (e == 0 or e >= b)
     R = (last if (e == 0 or e > last) else e) if numeric else None
@@ -182,7 +188,7 @@ def one_request(w, truth, last, b, e, awaiting, idx, first_class, case, concurre
         # sends a new message from another task meanwhile; then the congestion ends (FIFO wake-up)
         from asyncfix import FIXMessage
         w.writer.pause()
-        w.peer("2", None, [(7, b), (16, e)])
+        w.peer("2", None, [(7, spell_b), (16, spell_e)])
         t = w.loop.create_task(w.c.send_msg(FIXMessage("D", {11: "live", 55: "X"})))
         w.run()
         w.writer.resume()
@@ -190,7 +196,7 @@ def one_request(w, truth, last, b, e, awaiting, idx, first_class, case, concurre
         out = [raw for raw in w.take() if b"\x0111=live\x01" not in raw]
         sent_live = w.writer.out and any(b"\x0111=live\x01" in raw for raw in w.writer.out)
     else:
-        w.peer("2", None, [(t_, v_) for t_, v_ in ((7, b), (16, e)) if v_ is not None])
+        w.peer("2", None, [(t_, v_) for t_, v_ in ((7, spell_b), (16, spell_e)) if v_ is not None])
         out = w.take()
     rc = req_class(b, e, last)
     which = "first" if idx == 0 else "second"
@@ -334,7 +340,7 @@ def cases(quick):
         out.append(("acceptor", slots, False, [(1, 0), (1, 0)]))
     # requests whose BeginSeqNo / EndSeqNo are missing or not numbers: invalid, no side effects
     for slots in (("app", "dec", "app"),):
-        for p in [("x", 0), (1, "x"), (None, 0), (1, None), ("1.5", 0), (1, "")]:
+        for p in [("x", 0), (1, "x"), (None, 0), (1, None), ("1.5", 0), (1, ""), (1, "00"), ("02", "000000"), ("0002", "03")]:
             for aw in (False, True):
                 out.append(("acceptor", slots, aw, [p]))
     # long ranges: a run of > 1000 unsent numbers between application messages
